@@ -86,6 +86,32 @@ def jobs(tier):
                       bound="exactly %d nodes and %d edges (any end points: self-loops and parallel edges included), integer weights in [0,%d] or unit weights; "
                             "T = long long, sentinel 2^%d; unwind %d with unwinding assertions" % (n, m, wmax, sent, max(n, m) + 1),
                       slices=[fw], domain="every multigraph with %d nodes and %d edges" % (n, m), expect=[r'h_apsp\.assertion']))
+    # ---------------- ConstrainedFDLayout::computePathLengths: loop-body fragments, unbounded for one arbitrary index / pair
+    FD = "libcola/colafd.cpp"
+    cpl = slice_func(FD, r'^void ConstrainedFDLayout::computePathLengths\(', "ConstrainedFDLayout::computePathLengths")
+    h1, b1 = fragment_loop(cpl, r'for \(size_t i = 0; i < eLengths\.size\(\); \+\+i\)', "computePathLengths [non-positive lengths: loop body]")
+    h2, b2 = fragment_loop(cpl, r'for\(unsigned j=0;j<n;j\+\+\)', "computePathLengths [post-processing: body for one pair (i,j)]")
+    b2text = subst(b2, [(r'\bcontinue;', 'return;', 1)])
+    cpl_cxx = ("#include <verif_base.h>\n#include <valarray>\n#include <cfloat>\n"
+               "#define fprintf(...) ((void)0)   /* diagnostic output dropped */\n"
+               "namespace cola {\n"
+               "// data members the two fragments touch, with their real types (cola/libcola/cola.h); the class has many more\n"
+               "class ConstrainedFDLayout { public: unsigned n; double** D; unsigned short** G; double minD; double m_idealEdgeLength;\n"
+               "  void verif_pair_body(unsigned i, unsigned j); };\n"
+               "static void verif_lengths_body(std::valarray<double>& eLengths, size_t i)\n" + b1.text + "\n"
+               "void ConstrainedFDLayout::verif_pair_body(unsigned i, unsigned j)\n" + b2text + "\n}\n"
+               'extern "C" void w_cpl_lengths_body(void *e, size_t i) { cola::verif_lengths_body(*(std::valarray<double> *)e, i); }\n'
+               'extern "C" void w_cpl_pair_body(void *l, unsigned i, unsigned j) { ((cola::ConstrainedFDLayout *)l)->verif_pair_body(i, j); }\n')
+    js.append(Job("computePathLengths_lengths_body", "U", spec, "h_cpl_lengths", cxx=cpl_cxx, enforce="w_cpl_lengths_body", defines=["JOB_cpl_lengths"],
+                  slices=[cpl, b1], domain="all doubles, one arbitrary index of an array of any length", expect=[r'postcondition', r'assigns'],
+                  note="fprintf(stderr, ..) is macro-ed away (diagnostic output dropped)"))
+    js.append(Job("computePathLengths_pair_body", "U", spec, "h_cpl_pair", cxx=cpl_cxx, enforce="w_cpl_pair_body", defines=["JOB_cpl_pair"],
+                  slices=[cpl, b2], domain="all doubles that are numbers, one arbitrary pair (i,j) of a matrix with up to 4 rows (row i valid)",
+                  expect=[r'postcondition', r'assigns'], flags=["--sat-solver", "cadical"], backend="sat:cadical"))
+    js.append(Job("computePathLengths_pair_body_scaling", "D", spec, "h_cpl_pair", cxx="#define double long long\n#define VERIF_INT_MODE\n" + cpl_cxx,
+                  enforce="w_cpl_pair_body", defines=["JOB_cpl_pair", "CPL_INT", "CPL_BOUND=%d" % (1024 if tier == "quick" else 1048576)], slices=[cpl, b2],
+                  domain="scaled-integer mode: path length and idealLength integers in [0,%s] (or the sentinel), overflow-checked" % ("2^10" if tier == "quick" else "2^20"),
+                  expect=[r'postcondition', r'assigns'], flags=["--sat-solver", "cadical"], backend="sat:cadical", timeout=600))
     return js
 
 
@@ -100,8 +126,12 @@ ASSUMPTIONS = [
     "BOUNDED STAND-IN, NOT A PROOF: one job per (nodes, edges) pair, at most 3 nodes and 3 edges in the quick tier; nothing is counted under obligations/discharged",
     "NOT under contract: dijkstra / johnsons with the real PairingHeap -- the de-templated slices compile under goto-cc, but cbmc does not get past SSA conversion within 300 s even for "
     "2 nodes and 1 edge (pointer-linked heap, dynamic allocation, recursion); a defect confined to dijkstra is therefore NOT detected by this check",
-    "NOT decided (residue): everything beyond the bounds; agreement of the three algorithms with each other; the ideal-distance matrix of ConstrainedFDLayout::computePathLengths",
+    "ConstrainedFDLayout::computePathLengths: only the two loop BODIES are under contract (unbounded, for one arbitrary index / pair): non-positive lengths become 1; off the "
+    "diagonal a reachable pair is scaled by idealLength and marked 2, an unreachable pair keeps the sentinel and is marked 0; the loops themselves (writes through every row "
+    "pointer) and the call of johnsons are not",
+    "NOT decided (residue): everything beyond the bounds; agreement of the three algorithms with each other",
 ]
 EXPLANATION = ("Bounded stand-in only (DESIGN 5/C17): for every multigraph with the stated numbers of nodes and edges (any end points, so self-loops and parallel edges are included) "
                "and integer weights, floyd_warshall's matrix equals the Bellman-Ford shortest-path lengths, has a zero diagonal, is symmetric, and holds the sentinel exactly for "
-               "unreachable pairs. Writes through every row pointer of T** cannot be closed with loop contracts here (DESIGN 2.9), hence no unbounded obligations.")
+               "unreachable pairs. Writes through every row pointer of T** cannot be closed with loop contracts here (DESIGN 2.9). The obligations counted under "
+               "obligations/discharged belong to the loop-body fragments of ConstrainedFDLayout::computePathLengths only (unbounded for one arbitrary index / pair).")
